@@ -232,7 +232,9 @@ def run_extension_rule(run, rule_id="C09.ext"):
             val = defs[0] if len(defs) == 1 else arg
             text = P.T(val)
             if own == "Signed":
-                ok = text == f"{base}._value[-1]"
+                # plain source comparison: P.T treats locals as metavariables, and here the point is WHICH local it is
+                # (`narrow._value.iter_extend(wide._value[-1])` extends one operand with the other operand's sign)
+                ok = str(src(val)) == f"{base}._value[-1]"
                 exp = f"{base}._value[-1] (sign bit of the extended operand)"
             else:
                 ok = text in ("Bit(0)", "Bit(False)", "Bit('0')")
